@@ -66,6 +66,7 @@ type c20World struct {
 	ch     *chain.Chain
 	r      *vk.Rng
 	users  []chain.Account
+	forceAllowed map[string]bool
 	lp     chain.Account
 	balID  uint64
 	clID   uint64
@@ -285,13 +286,23 @@ func runC20(c *vk.Ctx) {
 		defer ch.Close()
 		ch.NextBlock(5 * time.Second)
 		// users[0..3] act; users[4] (the LP) only owns the first full-range position
-		w := &c20World{c: c, ch: ch, r: r, users: ch.Accs[:5], lp: ch.Accs[4], pos: map[uint64]*c20Pos{}, locks: map[uint64]*c20Lock{}, denoms: map[string]*c20Denom{}}
+		w := &c20World{c: c, ch: ch, r: r, users: ch.Accs[:5], lp: ch.Accs[4], pos: map[uint64]*c20Pos{}, locks: map[uint64]*c20Lock{}, denoms: map[string]*c20Denom{}, forceAllowed: map[string]bool{}}
 		sk := ch.App.SuperfluidKeeper
 		bm := balancer.NewMsgCreateBalancerPool(w.lp.Addr, balancer.NewPoolParams(osmomath.MustNewDecFromStr("0.003"), osmomath.ZeroDec(), nil),
 			[]balancer.PoolAsset{{Weight: sdkmath.NewInt(1), Token: coin("uosmo", 1_000_000_000_000)}, {Weight: sdkmath.NewInt(1), Token: coin("xxx", 2_000_000_000_000)}}, "")
 		if res := ch.Exec(&bm); !res.OK() {
 			c.Violate("C20.setup", nil, "pool: %s", res.ErrString())
 			return
+		}
+		// every other history: governance has put three of the four users on the force-unlock allow list (such an
+		// address may force-unlock its OWN locks, nobody else's)
+		if i%2 == 1 {
+			lp := ch.App.LockupKeeper.GetParams(ch.Ctx)
+			for _, u := range w.users[:3] {
+				lp.ForceUnlockAllowedAddresses = append(lp.ForceUnlockAllowedAddresses, u.Addr.String())
+				w.forceAllowed[u.Addr.String()] = true
+			}
+			ch.App.LockupKeeper.SetParams(ch.Ctx, lp)
 		}
 		w.balID = ch.App.PoolManagerKeeper.GetNextPoolId(ch.Ctx) - 1
 		w.share = gammtypes.GetPoolShareDenom(w.balID)
@@ -609,7 +620,12 @@ func runC20(c *vk.Ctx) {
 				case 9:
 					msg = &sftypes.MsgUnlockAndMigrateSharesToFullRangeConcentratedPosition{Sender: own.String(), LockId: int64(l.id), SharesToMigrate: sdk.NewCoin(lock.Coins[0].Denom, lock.Coins[0].Amount.QuoRaw(2))}
 				default:
-					// nobody is on the force-unlock allow list in this genesis: not even the owner may
+					if w.forceAllowed[own.String()] {
+						// the owner is on the allow list: it may, the other listed addresses (and everybody else) may not
+						w.probe("lock", l.state+"+owner-force-allowed", &lockuptypes.MsgForceUnlock{Owner: own.String(), ID: l.id}, own, nil, extra)
+						continue
+					}
+					// the owner is not on the force-unlock allow list: not even the owner may
 					w.probe("lock", l.state, &lockuptypes.MsgForceUnlock{Owner: own.String(), ID: l.id}, nil, nil, append(extra, c20Sender{"lock-owner", own}))
 					continue
 				}
